@@ -3,6 +3,7 @@ package metrics
 import (
 	"errors"
 	"fmt"
+	"math"
 	"sync"
 	"time"
 
@@ -86,7 +87,21 @@ func (c *Counter) loadState() {
 		return
 	}
 
-	c.Set(storage.Counters[c.LabeledID()])
+	// Add the stored value exactly once instead of overwriting the counter:
+	// everything counted before the state is loaded must be kept, and the
+	// counter may never decrease.
+	if c.stateLoaded.SetToIf(false, true) {
+		stored := storage.Counters[c.LabeledID()]
+		for stored > 0 {
+			// Add in chunks that fit an int on every platform.
+			chunk := stored
+			if chunk > math.MaxInt32 {
+				chunk = math.MaxInt32
+			}
+			c.Add(int(chunk))
+			stored -= chunk
+		}
+	}
 }
 
 func storePersistentMetrics() {
